@@ -1103,7 +1103,7 @@ impl<T: Transport, Env: UtpEnvironment> VirtualSocket<T, Env> {
             }
             (SynReceived, _) => return Err(Error::BugUnexpectedPacketInSynReceived),
             // Fin received in an expected state, but its sequence number is wrong
-            (SynAckSent { .. } | Established | FinWait1 { .. } | FinWait2, ST_FIN)
+            (SynAckSent { .. }, ST_FIN)
                 if hdr.seq_nr != self.last_consumed_remote_seq_nr + 1 =>
             {
                 trace!(
@@ -1112,6 +1112,20 @@ impl<T: Transport, Env: UtpEnvironment> VirtualSocket<T, Env> {
                     self.last_consumed_remote_seq_nr + 1
                 );
                 return Ok(Default::default());
+            }
+            // Same on a live connection (e.g. the data before the FIN was lost): we can't store it,
+            // the remote will retransmit it. What it acknowledges is still valid though.
+            (Established | FinWait1 { .. } | FinWait2, ST_FIN)
+                if hdr.seq_nr != self.last_consumed_remote_seq_nr + 1 =>
+            {
+                trace!(
+                    hdr=%hdr.short_repr(),
+                    "not accepting FIN, expected seq_nr to be {}",
+                    self.last_consumed_remote_seq_nr + 1
+                );
+                let mut msg = msg;
+                msg.header.set_type(ST_STATE);
+                return self.process_incoming_message(cx, msg);
             }
 
             (SynAckSent { .. }, ST_DATA | ST_STATE) => {
